@@ -89,3 +89,21 @@ CHECKS['C02'] = dict(
          'exactly (body call log, phase/subtest/branch/checkpoint records, diagnoses, outcome) with vf/ref/refexec.py.',
     note='Plain nested sequences and groups/subtests inside teardown sequences are not compared exactly (document is contradictory there; '
          'C03 covers them by trace predicates). Sampling beyond the bound is outside this technique family.')
+
+CHECKS['C05'] = dict(
+    engine='enum', level='model_checking', design_ref='DESIGN.md#c05',
+    technique='bounded-exhaustive decision-table enumeration on the real executor vs reference phase table',
+    text='One phase under test in 4 positions (first, after a failed phase, in a subtest, in a group teardown) x all per-invocation '
+         'behaviour sequences up to the bound (10 results; pairs, in thorough triples/4-sequences) x 16 measurement/diagnoser '
+         'combinations x every single PhaseOption (all compatible pairs in thorough) x allow_unset; exact comparison of per-invocation '
+         'records, body/diagnoser/run_if invocation log and outcome with the reference table.',
+    note='Timeouts via the virtual deadline clock; timeout_s values themselves are C12.')
+CHECKS['C03'] = dict(
+    engine='enum', level='model_checking', design_ref='DESIGN.md#c03',
+    technique='bounded-exhaustive enumeration of group nestings x behaviours with a trace predicate; stateless schedule exploration of a single abort',
+    text='All behaviour assignments (exception, STOP, timeout, FAIL_SUBTEST, failing nested group, terminal earlier teardown node) for '
+         'group nestings flat / in main / in teardown / in a subtest / in a branch / two in sequence (plus two-in-main and 3-deep in '
+         'thorough) run on the real executor; a per-group trace predicate (independent of the reference interpreter) checks: entered => '
+         'each teardown leaf exactly once, after main, before following nodes and before plug tearDown; not entered => no main/teardown '
+         'body; terminal teardown results propagate.  Abort timing is explored under the controlled scheduler.',
+    note='Setup sequences are plain phases so that "entered" is decidable from records; groups inside teardown only outside subtests.')
